@@ -595,7 +595,7 @@ int main(int argc, char **argv)
             g_bring = rg;
             bfs::Engine<SysB> E;
             E.max_depth = T ? 400 : 400;
-            E.workers = T ? 16 : 8;
+            E.workers = getenv("VP_BFS_WORKERS") ? atoi(getenv("VP_BFS_WORKERS")) : (T ? 16 : 8);
             // the result files of several engines in one process must not collide
             vp::Ctx &C = vp::ctx();
             std::string keep_out = C.out;
@@ -603,6 +603,7 @@ int main(int argc, char **argv)
             E.run();
             C.out = keep_out;
             done += std::to_string(rg.maxmsg) + "x" + std::to_string(rg.nmsgs) + ":states=" + std::to_string(E.n_states) + ",depth=" + std::to_string(E.completed_depth) + (E.fixpoint ? ",fixpoint" : ",NO-fixpoint") + " ";
+            fprintf(stderr, "part B: %s\n", done.c_str());
             if(vp::replaying()) break;
         }
         vp::bound("partB_rings", done);
